@@ -697,7 +697,7 @@ type family struct {
 }
 
 var (
-	allPkgs  = []string{"", "a", "a/b", "ab"}
+	allPkgs  = []string{"", "a", "a/b", "ab", "ab/c"} // ab and ab/c: siblings whose name extends the prefix of //a/...
 	allNames = []string{"x", "y", "a", "b", "xtest"}
 	tagSets  = [][]string{nil, {"x"}, {"y"}, {"x", "y"}}
 	platSets = [][]string{nil, {"p"}, {"q"}, {"p", "q"}}
@@ -734,7 +734,7 @@ func patternSets(maxSize int) [][2]any {
 }
 
 // tagFilterSets: tags x exclude-tags, never overlapping
-var tagFilterSets = [][2][]string{{nil, nil}, {{"x"}, nil}, {{"y"}, nil}, {{"x", "y"}, nil}, {nil, {"y"}}, {{"x"}, {"y"}}}
+var tagFilterSets = [][2][]string{{nil, nil}, {{"x"}, nil}, {{"y"}, nil}, {{"x", "y"}, nil}, {nil, {"y"}}, {{"x"}, {"y"}}, {nil, {"x", "y"}}}
 
 func structureLabels(reversed bool) [][2]string {
 	l := [][2]string{{"", "x"}, {"a", "a"}, {"a/b", "b"}, {"ab", "y"}, {"a", "b"}}
